@@ -418,7 +418,6 @@ func runNilDiscipline(a *Analyzer, r *Results) {
 	}
 	for _, id := range []string{"(*leanhelix.WorkerLoop).Run", "(*leanhelix.MainLoop).run"} {
 		w := a.NewWalker(on)
-		w.AutoSplit = true
 		w.Run(a.P.Func(id), nil, nil)
 		for _, u := range w.Undecided {
 			r.Undecided = append(r.Undecided, id+": "+u)
